@@ -39,7 +39,7 @@ LEVEL_TEXT = ('For each space and each representation the per-object encoding is
               'no-overlap channel images pairwise disjoint; compact images disjoint with union {0..N-1}.')
 LEVEL_NOTE = 'Trusted: enc.eo as identity of objects; own tables for status/colour values. Spaces sampled in quick, all type subsets in thorough.'
 SHARDS = {'quick': 4, 'thorough': 16}
-BUDGET_S = {'quick': 60, 'thorough': 900}
+BUDGET_S = {'quick': 300, 'thorough': 2400}
 RULE = ('case = (space, representation, object pair | perturbed member pair | channel image). non-trivial = pair of distinct '
         'objects differing in exactly one of type/status/colour, or a perturbed member; distinct by (space, representation, pair).')
 ASSUMPTIONS = ['objects of a space = declared types x all their statuses x declared colours (+ NoneGridObject as held item, + Hidden in observations)']
